@@ -378,7 +378,7 @@ fn tinit(cx: &mut Ctx, st: &mut State, ti: usize, hi: usize, via: u8) {
             candidates += 1;
         }
         acc = (acc ^ (s1 as u64 + ((c1 as u64) << 8))).wrapping_mul(0x0000_0100_0000_01B3);
-        unchecked_twin(cx, tg, x, differs);
+        unchecked_twin(cx, tg, m, x, differs);
     }
     if nonzero > 1 {
         cx.probe("tgt.nonzero_scores_beyond_self");
@@ -396,14 +396,78 @@ fn tinit(cx: &mut Ctx, st: &mut State, ti: usize, hi: usize, via: u8) {
 }
 
 #[cfg(feature = "f-unchecked")]
-fn unchecked_twin(cx: &mut Ctx, tg: &FuzzyHashCompareTarget, x: &Member, differs: bool) {
+fn unchecked_twin(cx: &mut Ctx, tg: &FuzzyHashCompareTarget, m: &Member, x: &Member, differs: bool) {
     use ssdeep::BlockSizeRelation;
+    let rel0 = ssdeep::block_size::compare_sizes(tg.log_block_size(), x.norm.0);
+    // compare_near_eq_unchecked: the only contract is the NearEq relation of
+    // the block sizes; identical hashes are allowed
+    if rel0 == BlockSizeRelation::NearEq {
+        let checked = tg.compare(&x.ln);
+        let near = tg.compare_near_eq(&x.ln);
+        let un = unsafe { tg.compare_near_eq_unchecked(&x.ln) };
+        cx.probe("c14.unchecked_near_eq_twin");
+        if !differs {
+            cx.probe("c14.unchecked_near_eq_twin_identical");
+        }
+        if checked != un || checked != near {
+            cx.fail(
+                "C14.unchecked_eq_checked",
+                "compare_near_eq",
+                format!("compare()={} compare_near_eq()={} compare_near_eq_unchecked()={} against {}", checked, near, un, show(&x.norm)),
+            );
+        }
+    }
+    // the static helpers and the block-size conversions, on in-contract arguments
+    // derived from this pair
+    {
+        let (l, r) = (x.norm.1.len() as u8, x.norm.2.len() as u8);
+        let (l, r) = (l.clamp(7, 64), r.clamp(7, 64));
+        let ed = ((x.norm.1.iter().map(|&v| v as u32).sum::<u32>()) % (l as u32 + r as u32 - 13)).min(l as u32 + r as u32 - 14);
+        let a = FuzzyHashCompareTarget::raw_score_by_edit_distance(l, r, ed);
+        let b = unsafe { FuzzyHashCompareTarget::raw_score_by_edit_distance_unchecked(l, r, ed) };
+        if a != b {
+            cx.fail("C14.unchecked_eq_checked", "raw_score_by_edit_distance", format!("({}, {}, {}): checked {} unchecked {}", l, r, ed, a, b));
+        }
+        let lg = x.norm.0;
+        if lg < FuzzyHashCompareTarget::LOG_BLOCK_SIZE_CAPPING_BORDER {
+            let a = FuzzyHashCompareTarget::score_cap_on_block_hash_comparison(lg, l, r);
+            let b = unsafe { FuzzyHashCompareTarget::score_cap_on_block_hash_comparison_unchecked(lg, l, r) };
+            if a != b {
+                cx.fail("C14.unchecked_eq_checked", "score_cap_on_block_hash_comparison", format!("({}, {}, {}): checked {} unchecked {}", lg, l, r, a, b));
+            }
+        }
+        if let Some(bs) = ssdeep::block_size::from_log(lg) {
+            let bu = unsafe { ssdeep::block_size::from_log_unchecked(lg) };
+            let back = ssdeep::block_size::log_from_valid(bs);
+            let backu = unsafe { ssdeep::block_size::log_from_valid_unchecked(bs) };
+            if bs != bu || back != lg || backu != lg {
+                cx.fail(
+                    "C14.unchecked_eq_checked",
+                    "block_size",
+                    format!("log {}: from_log {} from_log_unchecked {} log_from_valid {} log_from_valid_unchecked {}", lg, bs, bu, back, backu),
+                );
+            }
+        }
+        cx.probe("c14.unchecked_static_twin");
+    }
     // contract of compare_unequal*: the two hashes are different -- judged by
     // what the target itself says it holds, so that a target that wrongly
     // still represents another hash does not make *this harness* break the
     // contract (that defect is C17's to report, through its own checks)
     if !differs || tg.is_equiv(&x.ln) {
         return;
+    }
+    // the hash-level entry point (contract: the two hashes are different)
+    {
+        let hc = m.ln.compare(&x.ln);
+        let hu = unsafe { m.ln.compare_unequal_unchecked(&x.ln) };
+        if hc != hu {
+            cx.fail(
+                "C14.unchecked_eq_checked",
+                "hash.compare_unequal",
+                format!("{}.compare({}) = {} but compare_unequal_unchecked = {}", show(&m.norm), show(&x.norm), hc, hu),
+            );
+        }
     }
     let checked = tg.compare(&x.ln);
     let un = unsafe { tg.compare_unequal_unchecked(&x.ln) };
@@ -438,7 +502,7 @@ fn unchecked_twin(cx: &mut Ctx, tg: &FuzzyHashCompareTarget, x: &Member, differs
 }
 
 #[cfg(not(feature = "f-unchecked"))]
-fn unchecked_twin(_cx: &mut Ctx, _tg: &FuzzyHashCompareTarget, _x: &Member, _differs: bool) {}
+fn unchecked_twin(_cx: &mut Ctx, _tg: &FuzzyHashCompareTarget, _m: &Member, _x: &Member, _differs: bool) {}
 
 fn has_long_run(b: &[u8]) -> bool {
     collapse(b).len() != b.len()
@@ -451,7 +515,10 @@ fn pinit(cx: &mut Ctx, st: &mut State, pi: usize, s: &[u8]) {
         // The documentation lists usage constraints but promises neither a
         // panic nor exception safety.  What C11 demands is only that no
         // *corrupted object is returned*: if the call returns, the array must
-        // be valid.  Either way the slot is re-created afterwards.
+        // be valid, and the slot is re-created.  If the call panics, nothing is
+        // demanded of the array as it is left -- but it stays in use: the next
+        // `init_from` / `clear` must make it indistinguishable from a fresh one
+        // again (C17: nothing is carried over, also not from a refused call).
         cx.probe("pa.init_out_of_contract");
         let pa = &mut st.pa[pi];
         let r = guarded(|| pa.init_from(s));
@@ -466,7 +533,11 @@ fn pinit(cx: &mut Ctx, st: &mut State, pi: usize, s: &[u8]) {
                 );
             }
         }
-        st.pa[pi] = BlockHashPositionArray::new();
+        if r.is_ok() {
+            st.pa[pi] = BlockHashPositionArray::new();
+        } else {
+            cx.probe("pa.kept_after_refused_init");
+        }
         st.pa_str[pi].clear();
         return;
     }
@@ -714,7 +785,17 @@ pub fn generate(seed: u64) -> Vec<Op> {
                             // out of contract
                             let mut s = gen_bh(&mut rng, 64, false);
                             if rng.chance(1, 2) {
-                                while s.len() <= 64 {
+                                // too long, every symbol in range: just over the
+                                // capacity, or around the places where a narrowed
+                                // length would wrap (u8, u16)
+                                let target = match rng.below(6) {
+                                    0 | 1 => 65 + rng.usize_below(64),
+                                    2 => 255 + rng.usize_below(3),
+                                    3 => 256 + rng.usize_below(65),
+                                    4 => 256 * (1 + rng.usize_below(4)) + rng.usize_below(65),
+                                    _ => 65536 + rng.usize_below(65),
+                                };
+                                while s.len() < target {
                                     s.push((s.len() % 64) as u8);
                                 }
                             } else {
